@@ -400,7 +400,7 @@ HYPOTHESES = ['prime (val m): premise of C01_inverse_prime (and of the batch-inv
 
 # T-limb translator (lib/xlate_limb.py): coq/GenLimb/GenLimb.v is regenerated from the working tree's source text before
 # the Coq build; Props/GenLimb.v (generated per-N definitions = the list models + composed corollaries) is a strict obligation
-STRICT_PROP_FILES = ['GenLimb']
+STRICT_PROP_FILES = ['GenLimb', 'GenDerive']
 
 
 def _genlimb_regen(ctx):
@@ -408,6 +408,11 @@ def _genlimb_regen(ctx):
     sp = importlib.util.spec_from_file_location('genlimb_pre', os.path.join(ctx['ROOT'], 'props', 'GenLimb', 'pre.py'))
     m = importlib.util.module_from_spec(sp); sp.loader.exec_module(m)
     m.regen(ctx)
+    # phase 2: the code #[derive(MontConfig)] GENERATES (expanded with rustc -Zunpretty=expanded from lib/expand_crate,
+    # cached on a hash of ff-macros / ff sources) and the BigInt shifts -> coq/GenLimb/GenDerive.v, Props/GenDerive.v
+    sp = importlib.util.spec_from_file_location('genlimb_pre_derive', os.path.join(ctx['ROOT'], 'props', 'GenLimb', 'pre_derive.py'))
+    m2 = importlib.util.module_from_spec(sp); sp.loader.exec_module(m2)
+    m2.regen(ctx)
 
 
 def pre(ctx):
